@@ -274,13 +274,29 @@ def execute(scn):
             res['runs'] = ws.nruns
             return res
         # ---- order: evolutions of va before its migrations ---------------
+        # (a migration that Django soft-applies - its tables exist, nothing
+        # is executed - in the pre-evolution stage does not count: only the
+        # empty mark_applied prefix produces that)
         seq = []
-        for s in r.signals():
-            if s['name'] == 'applying_evolution' and s['p']['app'] == 'va':
-                seq.append(('evo', tuple(s['p'].get('labels') or [])))
-            elif s['name'] == 'applying_migration' and \
-                    s['p']['migration'][0] == 'va':
-                seq.append(('mig', s['p']['migration'][1]))
+        open_mig = None
+        for e in r.events:
+            if e['t'] == 'sig':
+                s = e
+                if s['name'] == 'applying_evolution' and \
+                        s['p']['app'] == 'va':
+                    seq.append(('evo', tuple(s['p'].get('labels') or [])))
+                elif s['name'] == 'applying_migration' and \
+                        s['p']['migration'][0] == 'va':
+                    open_mig = ['mig', s['p']['migration'][1], False]
+                elif s['name'] == 'applied_migration' and open_mig:
+                    if open_mig[2]:
+                        seq.append(('mig', open_mig[1]))
+                    else:
+                        stats['soft_applied_migration'] = 1
+                    open_mig = None
+            elif e['t'] == 'sql' and e['k'] == 'write' and open_mig and \
+                    not e.get('book') and not e.get('inj'):
+                open_mig[2] = True
         seen_mig = False
         for kind, what in seq:
             if kind == 'mig':
